@@ -211,6 +211,26 @@ def tlc_model_check(module, cfg, tag, expect_actions=(), **kw):
     return r
 
 
+def apalache_inductive(module, obligations, timeout=900):
+    """Runs Apalache on spec/<module>.tla for each (init, inv, length); all must report no error.
+    Returns the number of obligations discharged."""
+    out_dir = os.path.join(BUILD, "apalache")
+    os.makedirs(out_dir, exist_ok=True)
+    n = 0
+    for init, inv, length in obligations:
+        cmd = ["apalache-mc", "check", "--out-dir=" + out_dir, "--init=" + init, "--inv=" + inv, "--length=%d" % length,
+               os.path.join(SPEC, module + ".tla")]
+        try:
+            p = subprocess.run(cmd, cwd=SPEC, stdout=subprocess.PIPE, stderr=subprocess.STDOUT, text=True, timeout=timeout)
+        except subprocess.TimeoutExpired:
+            raise ToolError("apalache timeout on %s %s" % (module, inv))
+        if p.returncode != 0 or "EXITCODE: OK" not in p.stdout:
+            raise ToolError("apalache failed on %s (%s/%s/%d): %s" % (module, init, inv, length, p.stdout[-600:]))
+        n += 1
+    log("[apalache] %s: %d obligations discharged" % (module, n))
+    return n
+
+
 _MIS_RE = re.compile(r'^<<"MISMATCH", (.*)>>\s*$')
 
 
